@@ -158,55 +158,86 @@ def run_lean(out, h, tier, t0):
     return out
 
 
-def _child(task, conn):
+def _worker(conn):
+    """long-lived worker: receives tasks over its pipe, sends results back; killed by the parent if a task overruns"""
     try:
-        conn.send(run_instance(task))
+        from . import registry
+        registry.load_all()
     except Exception:      # noqa
-        conn.send(dict(obligation=task[0], instance=task[1], vcs=[], paths=0, errors=[["crash", traceback.format_exc()[-1500:]]],
-                       assumed={}, inlined=[], seconds=0.0, status="crash"))
-    finally:
-        conn.close()
+        pass
+    while True:
+        try:
+            task = conn.recv()
+        except EOFError:
+            return
+        if task is None:
+            return
+        try:
+            conn.send(run_instance(task))
+        except Exception:      # noqa
+            conn.send(dict(obligation=task[0], instance=task[1], vcs=[], paths=0, errors=[["crash", traceback.format_exc()[-1500:]]],
+                           assumed={}, inlined=[], seconds=0.0, status="crash"))
 
 
 def run_tasks(tasks, jobs, hard_timeout):
-    """one process per obligation instance, at most `jobs` at a time, each under a hard wall-clock limit: a solver
-    that ignores its own budget is killed and the instance is reported undecided (never a violation)"""
+    """`jobs` long-lived worker processes (spawned, never forked after z3 was imported); each obligation instance runs
+    under a hard wall-clock limit: a solver that ignores its own budget gets its worker killed (and replaced) and the
+    instance is reported undecided (never a violation)"""
     ctx = mp.get_context("spawn")
     pending = list(tasks)
-    running = []
     results = {}
-    while pending or running:
-        while pending and len(running) < jobs:
-            t = pending.pop(0)
-            parent, child = ctx.Pipe(duplex=False)
-            p = ctx.Process(target=_child, args=(t, child), daemon=True)
-            p.start()
-            child.close()
-            running.append((t, p, parent, time.time()))
-        still = []
-        for t, p, conn, t0 in running:
-            if conn.poll(0):
+
+    def spawn():
+        parent, child = ctx.Pipe(duplex=True)
+        p = ctx.Process(target=_worker, args=(child,), daemon=True)
+        p.start()
+        child.close()
+        return dict(p=p, conn=parent, task=None, t0=None)
+
+    def blank(t, kind, msg, secs):
+        vcs = [dict(name="(whole instance)", result="unknown", seconds=secs, backend="hard-timeout", path=0, detail="")] if kind == "timeout" else []
+        return dict(obligation=t[0], instance=t[1], vcs=vcs, paths=0, errors=[[kind, msg]], assumed={}, inlined=[], seconds=secs, status=kind)
+
+    workers = [spawn() for _ in range(max(1, min(jobs, len(tasks))))]
+    while pending or any(w["task"] is not None for w in workers):
+        for i, w in enumerate(workers):
+            if w["task"] is None:
+                if pending:
+                    w["task"], w["t0"] = pending.pop(0), time.time()
+                    try:
+                        w["conn"].send(w["task"])
+                    except (BrokenPipeError, OSError):
+                        results[w["task"][:2]] = blank(w["task"], "crash", "worker pipe broken", 0.0)
+                        w["p"].kill()
+                        workers[i] = spawn()
+                continue
+            t = w["task"]
+            if w["conn"].poll(0):
                 try:
-                    results[t[:2]] = conn.recv()
-                except EOFError:
-                    results[t[:2]] = dict(obligation=t[0], instance=t[1], vcs=[], paths=0, errors=[["crash", "worker died"]],
-                                          assumed={}, inlined=[], seconds=time.time() - t0, status="crash")
-                p.join(5)
-                if p.is_alive():
-                    p.kill()
-            elif not p.is_alive():
-                results[t[:2]] = dict(obligation=t[0], instance=t[1], vcs=[], paths=0, errors=[["crash", f"worker exited with {p.exitcode}"]],
-                                      assumed={}, inlined=[], seconds=time.time() - t0, status="crash")
-            elif time.time() - t0 > hard_timeout:
-                p.kill()
-                p.join(5)
-                results[t[:2]] = dict(obligation=t[0], instance=t[1], vcs=[dict(name="(whole instance)", result="unknown", seconds=hard_timeout, backend="hard-timeout", path=0, detail="")],
-                                      paths=0, errors=[["timeout", f"instance exceeded the hard limit of {hard_timeout}s"]], assumed={}, inlined=[],
-                                      seconds=time.time() - t0, status="timeout")
-            else:
-                still.append((t, p, conn, t0))
-        running = still
-        time.sleep(0.05)
+                    results[t[:2]] = w["conn"].recv()
+                    w["task"] = None
+                except (EOFError, OSError):
+                    results[t[:2]] = blank(t, "crash", "worker died", time.time() - w["t0"])
+                    w["p"].kill()
+                    workers[i] = spawn()
+            elif not w["p"].is_alive():
+                results[t[:2]] = blank(t, "crash", f"worker exited with {w['p'].exitcode}", time.time() - w["t0"])
+                workers[i] = spawn()
+            elif time.time() - w["t0"] > hard_timeout:
+                w["p"].kill()
+                w["p"].join(5)
+                results[t[:2]] = blank(t, "timeout", f"instance exceeded the hard limit of {hard_timeout}s", time.time() - w["t0"])
+                workers[i] = spawn()
+        time.sleep(0.02)
+    for w in workers:
+        try:
+            w["conn"].send(None)
+        except Exception:      # noqa
+            pass
+    for w in workers:
+        w["p"].join(2)
+        if w["p"].is_alive():
+            w["p"].kill()
     return [results[t[:2]] for t in tasks]
 
 
